@@ -4,7 +4,7 @@ import EdzedModel.OutputAsync
 namespace Edzed.OutputAsync
 
 structure DState where
-  cfg : Cfg := ⟨.wait, 0, none⟩
+  cfg : Cfg := ⟨.wait, 0, none, 0⟩
   st : State := {}
   deriving Inhabited
 
@@ -34,6 +34,7 @@ def parseStopData? (s : String) : Option (Option Item) :=
 /-- `kind/id` of a logged event; the arrival marker `put` is an input, not an observation -/
 def evStr : Ev → Option String
   | .put _ => none
+  | .timeout => none
   | .out n => some s!"out/{n}"
   | .start j => some s!"start/{j.data.id}"
   | .done j => some s!"end/{j.data.id}"
@@ -72,10 +73,10 @@ def renderInstants (l : List (Nat × Ev)) : String :=
   if r.isEmpty then "-" else ",".intercalate r
 
 def handle (s : DState) : List String → DState × String
-  | ["reset", m, g, sd] =>
-    match parseMode? m, g.toNat?, parseStopData? sd with
-    | some m, some g, some sd => ({ cfg := ⟨m, g, sd⟩, st := {} }, "ok")
-    | _, _, _ => (s, "bad-op")
+  | ["reset", m, g, sd, to] =>
+    match parseMode? m, g.toNat?, parseStopData? sd, to.toNat? with
+    | some m, some g, some sd, some to => ({ cfg := ⟨m, g, sd, to⟩, st := {} }, "ok")
+    | _, _, _, _ => (s, "bad-op")
   | ["put", t, pre, batch, id, dur, fail] =>
     match t.toNat?, parseBool? pre, parseBool? batch, parseItem? id dur fail with
     | some t, some pre, some batch, some x =>
